@@ -268,6 +268,7 @@ def run(oc, tier, seed):
                 oc.count("groups_%d" % len(gs))
                 if out[0] == "ok":
                     for what, got, trig in spec_checks(q, gs, os_, sel_model, notes, out[1]):
+                        # (here m == out: a known finding is one the model of the unchanged code reproduces)
                         oc.spec_fail.append((dict(case, notes=notes[:40]), {"clause": what, "got": got}, what, trig))
                         if trig:
                             oc.known_hit[trig] = q
